@@ -172,6 +172,9 @@ def run_impl(case):
             exact_all = False
         if m.size and (m.min() < -MASK_RANGE_TOL or m.max() > 1 + MASK_RANGE_TOL):
             problems.append(f"input {i}: recovered mask values in [{m.min():.9g}, {m.max():.9g}], outside [0,1]")
+        if case["p"] >= 1.0 and m.size and np.abs(m - 1.0).max() > MASK_RANGE_TOL:
+            # deterministic, not statistical: uniform draws lie in [0,1), so with p = 1 every grid cell is kept
+            problems.append(f"input {i}: preservation probability 1.0 but a mask value is {m.min():.9g}")
         masks.append(m32)
     exact = exact_all and v == 0.0 and all(abs(e) in (0.5, 1.0, 2.0, 4.0) for x in case["xs"] for e in x)
     res.update(masks=[[[float(e) for e in mk] for mk in mi] for mi in masks],
@@ -263,7 +266,7 @@ def dump_term(case, res):
     ta, tb, _ = tolerances(res)
     return ("(" + common_lets(case, res) +
             "(map (map qdump) (rise (fquad ks) k bs nb v xs ts mss), "
-            f"map (fun xtm => map qdump (rise_tols (fquad ks) (fmag ks) {core.cq(ta)} {core.cq(tb)} k v (fst (fst xtm)) "
+            f"map (fun xtm => map qdump (rise_tols (fmag ks) {core.cq(ta)} {core.cq(tb)} k v (fst (fst xtm)) "
             "(snd (fst xtm)) (snd xtm))) (combine (combine xs ts) mss)))")
 
 
